@@ -244,6 +244,32 @@ CLAIMED = {
          "expected token lists come from the template's own construction in lib/p_gen.py; one template shape.",
          "TLC-enumerated feature combinations, compile-and-run comparison of the typed AST with the input",
          "DESIGN.md §6 C23"),
+ "C27": ("exploration",
+         "LsText.tla defines the Format step on the abstract grammar description (model' = model, comments' = comments, second formatting "
+         "is the identity). The real parol-ls formats texts over LSP (all 8 option combinations via workspace/didChangeConfiguration), the "
+         "driver applies the edits and formats again; the harness reads original and result with parol's own front end and extracts comments "
+         "by running parol.par on both through the run-time parser; TLC validates each recorded step against LsText.tla. Texts: repository "
+         "grammars, TLC-enumerated feature templates, and a generator that puts one (two) block/line comments at every token boundary.",
+         "sampled texts; comment texts compared as concatenation (adjacent block comments are read as one by parol's scanner, see C15); "
+         "known finding F19 covers exactly the two-comments-inside-a-prolog-declaration class.",
+         "real language server driven over LSP, results abstracted by parol's own parser, each step validated by a TLC trace specification",
+         "DESIGN.md §6 C27"),
+ "C28": ("exploration",
+         "LsText.tla defines RenameNT / RenameState on the abstract grammar description. For every renameable symbol of every text the real "
+         "parol-ls gets prepareRename + rename at its occurrences (found independently by running parol.par on the text), the driver applies "
+         "the WorkspaceEdit, and TLC validates: result is a valid grammar, its model is the renamed model, comments unchanged, text equals "
+         "the original with exactly that symbol's occurrences replaced.",
+         "sampled texts (repository grammars, TLC-enumerated templates); quick asks at first/last occurrence only.",
+         "real language server driven over LSP, results abstracted by parol's own parser, each step validated by a TLC trace specification",
+         "DESIGN.md §6 C28"),
+ "C30": ("exploration",
+         "Gen_Text.tla enumerates every text of <= 3 (4) pieces over {a, 2-byte char, 4-byte char, CR, LF, ':', PAR fragments}; for each text "
+         "(and repository grammars) the real parol-ls is asked documentSymbol, formatting and, at every line 0..lines and every UTF-16 column "
+         "0..longest+2, hover, definition, prepareRename, rename, codeAction; every request must be answered and the process must stay alive "
+         "(debug build: overflow checks and debug assertions on).",
+         "exhaustive over the small text universe only; pos_to_offset's result is observed through panics, not directly.",
+         "TLC-enumerated texts x all positions x all request kinds against the real server over LSP; crash / missing answer = violation",
+         "DESIGN.md §6 C30"),
 }
 
 NOT_YET = "check not built yet in this round (see DESIGN.md §11.2 build order); will be claimed once its quick check passes on the unchanged tree"
@@ -273,7 +299,7 @@ def main():
             "guard": "parol_verif",
             "enable": "RUSTFLAGS='--cfg parol_verif' (set in /verif/harness/.cargo/config.toml; the harness crate path-depends on /repo/crates/*)",
             "baseline_off_cmd": "cd /repo && cargo test --workspace --no-fail-fast --offline",
-            "source_commits": [],
+            "source_commits": ["aaf3525", "c2381e3", "b473e06", "a964c6b"],
             "add_only": True,
         },
         "engines": [
